@@ -22,7 +22,7 @@ var c09Floats = []float64{0, 1.5, -2.5, 1e300}
 var c09ConcreteStrings = false
 
 func symData(name string, depth int) any {
-	nk := 18
+	nk := 20
 	if depth <= 0 {
 		nk = 9
 	}
@@ -60,6 +60,17 @@ func symData(name string, depth int) any {
 		return [2]int{1, 2}
 	case 14:
 		return []any{[0]string{}, complex(1, 2)}
+	case 17: // a struct whose exported pointer field is nil, directly and behind a pointer inside a slice
+		return struct {
+			P *c09T
+			N int
+		}{nil, 1}
+	case 18:
+		return []any{&struct {
+			P  *c09T
+			PP **c09T
+			I  any
+		}{}}
 	case 15:
 		return struct {
 			*c09T
@@ -137,5 +148,43 @@ func HarnessC09Constructs() {
 	if err != nil && duringEval {
 		vCover("evaluation-error")
 		vAssert(err.Line() == uint(1+2*lead), "evaluation-error-carries-line-of-construct")
+	}
+}
+
+
+// HarnessC09Custom: a custom function registered for one receiver type and called on a receiver of every type
+// (literal or from the data) gives output or an error, never a panic.
+func HarnessC09Custom() {
+	var rerr error
+	reg := vChoice("registered-for", 6)
+	switch reg {
+	case 0:
+		rerr = RegisterStrFunc("cf", func(s string, args ...any) string { return s + "!" })
+	case 1:
+		rerr = RegisterArrFunc("cf", func(a []any, args ...any) []any { return a })
+	case 2:
+		rerr = RegisterIntFunc("cf", func(i int, args ...any) int { return i + 1 })
+	case 3:
+		rerr = RegisterFloatFunc("cf", func(f float64, args ...any) float64 { return f + 1 })
+	case 4:
+		rerr = RegisterBoolFunc("cf", func(b bool, args ...any) bool { return !b })
+	}
+	vAssert(rerr == nil, "registration-succeeds")
+	recv := vChoice("receiver", 7)
+	lits := []string{"\"s\"", "[1]", "5", "2.5", "true", "nil", "{k: 1}"}
+	vals := []any{"s", []any{1}, 5, 2.5, true, nil, map[string]any{"k": 1}}
+	var out string
+	var err *fail.Error
+	if vChoice("from-data", 2) == 1 {
+		out, err, _ = renderChecked("{{ v.cf(1, \"x\") }}", map[string]any{"v": vals[recv]})
+	} else {
+		out, err, _ = renderChecked("{{ "+lits[recv]+".cf(1, \"x\") }}", nil)
+	}
+	vCover("returned")
+	if recv == reg && reg < 5 {
+		vAssert(err == nil, "registered-function-is-callable")
+	} else {
+		vAssert(err != nil && out == "", "function-not-registered-for-that-type-is-an-error")
+		vCover("evaluation-error")
 	}
 }
